@@ -17,6 +17,8 @@ use vcheck::*;
 
 mod c01;
 mod c03;
+mod c04;
+mod c35;
 
 fn main() {
     let args = parse_args();
@@ -25,6 +27,8 @@ fn main() {
     match args.prop.as_str() {
         "C01" => c01::run(&args),
         "C03" => c03::run(&args),
+        "C04" => c04::run(&args),
+        "C35" => c35::run(&args),
         "PROBE" => probe(&args),
         p => {
             eprintln!("vc_query does not serve {p} yet");
